@@ -116,6 +116,7 @@ fn rand_number(rng: &mut Rng) -> Number {
 const SYMBOL_TEXTS: &[&str] = &[
     "a", "foo", "foo-bar", "list->vector", "+", "-", "...", "<=?", "a1", "!x", "$", "%tmp", "&k", "*", "/", "x/y", ":key", "<", "=", ">",
     "?", "^", "_", "~", "a.b", "a+b", "a@b", "lambda", "quote", "x->y!", "CamelCase", "λ", "日本語", "é", "a\\x41;b", "->", "-a", "+a",
+    "\\x3000;a", "\\x2003;b", "a\\x3000;", "\\x2028;", "\\xa0;x", "\\x1680;", "x\\x205f;y", "unquote", "quasiquote", "unquote-splicing",
     "..a", ".a", "a\\x2c;b", "x\\x3b;y", "\\x5b;", "p\\x7c;q", "\\x5c;", "a\\xa;b", "n\\x3bb;", "\\x1F600;", "z\\xe9;",
 ];
 
@@ -190,9 +191,23 @@ pub fn rand_datum(rng: &mut Rng, depth: usize) -> Cell {
         }
         10 => {
             let n = rng.below(4);
-            Cell::Vector((0..n).map(|_| rand_datum(rng, depth - 1)).collect())
+            let mut v: Vec<Cell> = (0..n).map(|_| rand_datum(rng, depth - 1)).collect();
+            // vectors (like lists) whose first element is one of the abbreviation keywords
+            if n > 0 && rng.chance(1, 4) {
+                v[0] = Cell::new_symbol(*rng.pick(&["quote", "quasiquote", "unquote"]));
+            }
+            Cell::Vector(v)
         }
-        _ => Cell::new_list(vec![Cell::new_symbol("quote"), rand_datum(rng, depth - 1)]),
+        _ => {
+            // (quote d), and the other shapes around the abbreviation keywords: other keywords, other lengths, dotted
+            let kw = *rng.pick(&["quote", "quote", "quasiquote", "unquote"]);
+            match rng.below(6) {
+                0 => Cell::new_list(vec![Cell::new_symbol(kw)]),
+                1 => Cell::new_list(vec![Cell::new_symbol(kw), rand_datum(rng, depth - 1), rand_datum(rng, depth - 1)]),
+                2 => Cell::new_improper_list(vec![Cell::new_symbol(kw)], Cell::new_symbol("tail")),
+                _ => Cell::new_list(vec![Cell::new_symbol(kw), rand_datum(rng, depth - 1)]),
+            }
+        }
     }
 }
 
